@@ -26,10 +26,7 @@ RULE = ("case = one point of the lattice functional{rootfinder,equilibrium,minim
         "zero with requires_grad} x cotangent {dense, unit, zero}; inside a case: first-order gradients of <cot, y> "
         "and second-order gradients (gradient of a fixed contraction of the first-order gradients) w.r.t. every "
         "differentiable tensor, compared with the reference; distinct = distinct rounded observation")
-RULE_ADDED = ('Added later: objects listing a NON-differentiable tensor before / after the differentiable ones (Edi'
-              'tableModule and nn.Module with a frozen parameter), forward-mode product at an exactly zero differen'
-              'tiable cotangent, 24-unknown systems for the iterative backward solvers. Round 4: placement explicit'
-              '_view (matrix leaf and its transposed view as two explicit parameters).')
+RULE_ADDED = 'Added later: objects listing a NON-differentiable tensor before / after the differentiable ones (EditableModule and nn.Module with a frozen parameter), forward-mode product at an exactly zero differentiable cotangent, 24-unknown systems for the iterative backward solvers. Round 4: placement explicit_view (matrix leaf and its transposed view as two explicit parameters). Rounds 5-6: preconditioner options of the backward solver (bicgstab precond_l / precond_r / both, cg precond); the object is given other tensors between the forward call and the backward pass.'
 ASSUMPTIONS = [
     "reference = two Newton steps unrolled in plain torch from the detached returned point on the shifted residual "
     "f(y, theta) - f(y_ret, theta0) (so that the returned point is an exact root and the reference is the IFT formula "
